@@ -16,6 +16,7 @@ mod c15;
 mod c09;
 mod c06;
 mod c13;
+mod c01;
 
 fn main() {
     std::panic::set_hook(Box::new(|_| {}));
@@ -43,6 +44,7 @@ fn main() {
         "c06" => c06::run(tier, seed, &mut out),
         "c13" => c13::run(tier, seed, &mut out),
         "c14" => c13::run_c14(tier, seed, &mut out),
+        "c01" => c01::run(tier, seed, &mut out),
         _ => {
             eprintln!("unknown family {}", fam);
             std::process::exit(2);
